@@ -100,7 +100,7 @@ def gen_spec(rng, physical=False, allow_flags=True, allow_expr=True, shift_kinds
     T = rng.randint(1, max_T)
     shift = "default"
     if "int" in shift_kinds and (rng.random() < 0.3 or "default" not in shift_kinds):
-        shift = rng.choice([1, 1, 2, 2, 3, 0, -1, n, n + 1] if not physical else [1, 1, 2, 2, 3])
+        shift = rng.choice([1, 1, 2, 2, 3, 0, -1, n, n + 1] if not physical else [x for x in [1, 1, 2, 2, 3] if x <= n])
     narr = rng.randint(1, 3)
     arrays = [[draw(rng, "a") if rng.random() < 0.8 else 0.0 for _ in range(T)] for _ in range(narr)]
     if physical:
@@ -690,32 +690,37 @@ def corr_reshape(ctx):
                              {"check": "reshape", "N": N, "T": T, "modes": modes, "sd": {str(k): v for k, v in sd.items()}})
 
 
+def gen_loop_spec(rng, meas="MeasureFock", max_T=7):
+    """Single-band program with 0-3 delay loops in the Borealis layout (loop i couples positions differing by delay i)."""
+    nloops = rng.randint(0, 3)
+    delays = [rng.randint(1, 4) for _ in range(nloops)]
+    Nn = sum(delays) + 1
+    T = rng.randint(1, max_T)
+    pos = [Nn - 1 - sum(delays[:i]) for i in range(nloops + 1)]
+    arrays = [[rng.choice([0, 0, 0.5, 1.1]) for _ in range(T)] for _ in range(max(nloops, 1))]
+    if rng.random() < 0.3 and arrays:
+        arrays[0] = [0] * T
+    cmds = [["Sgate", [0.3, 0.0], [Nn - 1], {"dag": False, "sel": None}]]
+    for i in range(nloops):
+        a, b = pos[i + 1], pos[i]
+        if rng.random() < 0.3:
+            a, b = b, a
+        second = {"p": i} if rng.random() < 0.2 else 0.0
+        first = {"p": i} if rng.random() < 0.8 else 0.4
+        cmds.append(["BSgate", [first, second], [a, b], {"dag": False, "sel": None}])
+    if meas:
+        cmds.append([meas, [0.0] if meas == "MeasureHomodyne" else [], [0], {"dag": False, "sel": None}])
+    return {"N": [Nn], "arrays": arrays, "shift": "default", "cmds": cmds}, nloops
+
+
 def corr_delays(ctx):
     rng = ctx.rng
     n_cases = ctx.budget(80, 600)
     lines = [HEADER]
     cases, impl = [], []
     for _ in range(n_cases):
-        nloops = rng.randint(0, 3)
-        delays = [rng.randint(1, 4) for _ in range(nloops)]
-        Nn = sum(delays) + 1
-        T = rng.randint(1, 7)
-        # borealis-like layout: loop i couples positions n_i and n_i - delay_i
-        pos = [Nn - 1 - sum(delays[:i]) for i in range(nloops + 1)]
-        arrays = [[rng.choice([0, 0, 0.5, 1.1]) for _ in range(T)] for _ in range(max(nloops, 1))]
-        if rng.random() < 0.3 and arrays:
-            arrays[0] = [0] * T
-        cmds = [["Sgate", [0.3, 0.0], [Nn - 1], {"dag": False, "sel": None}]]
-        order = list(range(nloops))
-        for i in order:
-            a, b = pos[i + 1], pos[i]
-            if rng.random() < 0.3:
-                a, b = b, a
-            second = {"p": i} if rng.random() < 0.2 else 0.0
-            first = {"p": i} if rng.random() < 0.8 else 0.4
-            cmds.append(["BSgate", [first, second], [a, b], {"dag": False, "sel": None}])
-        cmds.append(["MeasureFock", [], [0], {"dag": False, "sel": None}])
-        spec = {"N": [Nn], "arrays": arrays, "shift": "default", "cmds": cmds}
+        spec, nloops = gen_loop_spec(rng)
+        arrays, cmds = spec["arrays"], spec["cmds"]
         prog = build_tdm(spec)
         try:
             ri = ("ok", [int(x) for x in prog.get_delays()], int(prog.get_crop_value()))
@@ -746,6 +751,49 @@ def corr_delays(ctx):
             continue
         if (list(v[0]), int(v[1])) != (ri[1], ri[2]):
             ctx.disagreement("corr:delays", "get_delays/get_crop_value differ: impl %s model %s" % (ri, v), {"check": "delays", "spec": spec})
+
+
+def crop_check(ctx, spec, inj, space):
+    """Engine-side crop handling: crop=True removes exactly the first get_crop_value() time bins from the samples
+    (register-shifting run) / keeps exactly modes crop..T-1 of the state (space-unrolled, measurement-free run)."""
+    found = []
+    T = len(spec["arrays"][0])
+    try:
+        c = int(build_tdm(spec).get_crop_value())
+    except NotImplementedError:
+        return found
+    try:
+        if not space:
+            with Inject(inj):
+                r0 = sf.Engine("gaussian").run(build_tdm(spec), shots=2)
+            with Inject(inj):
+                r1 = sf.Engine("gaussian").run(build_tdm(spec), shots=2, crop=True)
+            a, b = np.array(r0.samples), np.array(r1.samples)
+            if a[:, :, c:].shape != b.shape or not np.allclose(a[:, :, c:], b, atol=1e-9):
+                found.append(("engine:crop:samples", "crop=True samples are not the uncropped samples with the first %d time bins removed: shapes %s vs %s" % (c, a.shape, b.shape)))
+            sd = r1.samples_dict
+            if list(sd) != [0] or not np.allclose(np.array(sd[0]), a[:, 0, c:], atol=1e-9):
+                found.append(("engine:crop:samples_dict", "crop=True samples_dict differs from the cropped samples"))
+        else:
+            sp = dict(spec)
+            sp["cmds"] = [x for x in spec["cmds"] if not OPS[x[0]][2]]
+            r1 = sf.Engine("gaussian").run(build_tdm(sp), space_unroll=True, crop=True)
+            r0 = sf.Engine("gaussian").run(build_tdm(sp), space_unroll=True)
+            nm = sum(sp["N"]) + max(T - 1, 0)
+            loop = [[n_, ps, m, False, None] for n_, ps, m, _, _ in space_image(sp, 1)]
+            rl, _ = run_plain(nm, loop, [0.0])
+            for res, modes, tag in ((r1, list(range(c, T)), "crop"), (r0, list(range(0, T)), "nocrop")):
+                st = res.state
+                if st.num_modes != len(modes):
+                    found.append(("engine:crop:state-modes:" + tag, "state has %d modes, expected modes %s" % (st.num_modes, modes)))
+                    continue
+                if modes:
+                    mu, cov = rl.state.reduced_gaussian(modes)
+                    if not (np.allclose(st.means(), mu, atol=1e-8) and np.allclose(st.cov(), cov, atol=1e-8)):
+                        found.append(("engine:crop:state:" + tag, "returned state is not the explicit loop's state reduced to modes %s" % modes))
+    except Exception as e:
+        found.append(("engine:crop:raises:%s%s" % (type(e).__name__, ":space" if space else ""), "run with crop raised %r" % e))
+    return found
 
 
 # --------------------------------------------------------------------------------------------
@@ -937,6 +985,8 @@ def physical_check(ctx, spec, shots, inj, data, emit=True):
     Returns list of (signature, what)."""
     found = []
     T = len(spec["arrays"][0])
+    if spec["shift"] != "default" and not (1 <= int(spec["shift"]) <= sum(spec["N"])):
+        return found    # an integer shift outside 1..n has no agreed meaning (Python slicing makes it a no-op)
     prog = build_tdm(spec)
     try:
         prog.unroll(shots)
@@ -1152,6 +1202,20 @@ def search(ctx):
         data = {"check": "engine", "spec": spec, "shots": shots, "inj": inj, "space": True}
         for sig, what in engine_check(ctx, spec, shots, inj, space=True):
             ctx.counterexample(sig, what, data)
+    # 6. engine-side crop handling
+    search_crop(ctx)
+
+
+def search_crop(ctx):
+    rng = ctx.rng
+    for _ in range(ctx.budget(16, 160)):
+        spec, nloops = gen_loop_spec(rng, meas="MeasureHomodyne", max_T=6)
+        space = rng.random() < 0.5
+        inj = inj_values(rng)
+        data = {"check": "crop", "spec": spec, "inj": inj, "space": space}
+        ctx.case({"kind": "crop", "spec": spec, "space": space}, nontrivial=nloops >= 1 and len(spec["arrays"][0]) >= 2, bucket="search:crop")
+        for sig, what in crop_check(ctx, spec, inj, space):
+            ctx.counterexample(sig, what, data)
 
 
 class _Collector:
@@ -1180,6 +1244,8 @@ def run_data(ctx, d):
         f = engine_check(ctx, d["spec"], d["shots"], d["inj"], space=d.get("space", False))
     elif chk == "space-state":
         f = space_state_check(ctx, d["spec"])
+    elif chk == "crop":
+        f = crop_check(ctx, d["spec"], d["inj"], d["space"])
     else:
         return False
     for sig, what in f:
